@@ -652,6 +652,8 @@ def judge(col, case, base, kind):
         col.count("rejected")
     col.outcome("%s:%s" % (entry, label))
     col.nontrivial((entry, base, kind, label))
+    if len(col.samples) < 3 and (col.counts["evaluations"] % 997) == 1:
+        col.sample({"entry": entry, "fault": kind, "outcome": label, "case": case}, limit=3)
     for sig, what in probs:
         col.violation(sig, what, case)
     if label == "hang":
